@@ -515,6 +515,9 @@ func (h *dbHarness) compareIterPos(obj *iterObj, op *DBOp, valid bool) {
 	}
 	if err := it.Error(); err != nil {
 		h.opErr("iterator", err)
+		// the position after an error is unspecified until the next absolute
+		// positioning call
+		m.NeedSeek = true
 		return
 	}
 	// Positions inside spans excised after a classic snapshot are exempt.
